@@ -12,7 +12,7 @@ CLAIMED = {
  "C03": ("exploration", DST + "snapshot equality across simulated clean restarts at seeded history positions",
          "Real System::shutdown (or flush-all + kill), process-global reset, real System::init on the same directory; full snapshot before == after, traffic continues against the unchanged model; lost index files; watchdog for restarts that never complete.", "graceful stop modelled per server/src/main.rs (runtime dropped right after shutdown, or after draining)", "4.C03"),
  "C04": ("fault_enumeration", DST + "crash image at every file-mutation boundary of a recorded run + torn variants of the last write, booted by the real recovery code",
-         "For each seeded recorded run every boundary after a log/index/consumer-offset/state-log/segment-file mutation (and torn lengths of the last write) is rebuilt as a directory and booted; recovery oracle: start-up succeeds, no panic, gap-free prefix of accepted messages, completely written+indexed batches survive (wait mode), post-recovery sends continue, second restart agrees, consumer offsets are stored values. Enumeration within a run, sampling over runs. Three cause classes are listed known findings.", "process-death model (completed writes survive); deferred tokio write completion not modelled (inline writes)", "4.C04"),
+         "For each seeded recorded run every boundary after a log/index/consumer-offset/state-log/segment-file mutation (and torn lengths of the last write) is rebuilt as a directory and booted; recovery oracle: start-up succeeds, no panic, gap-free prefix of accepted messages, completely written+indexed batches survive (wait mode), post-recovery sends continue, second restart agrees, consumer offsets are stored values. Enumeration within a run, sampling over runs.", "process-death model (completed writes survive); deferred tokio write completion not modelled (inline writes)", "4.C04"),
  "C05": ("exploration", DST + "catalogue command histories with restarts; dump before == after",
          "Administrative histories (auto/explicit ids, by number/name, delete+re-create, users, permissions, tokens, groups) through the binary protocol with clean restarts; catalogue dump, messages and directory tree compared across each restart.", "binary transport only (HTTP handlers share System and the state journal; not driven)", "4.C05"),
  "C06": ("exploration", DST + "sequential-map refinement after every valid/invalid catalogue command",
@@ -22,7 +22,7 @@ CLAIMED = {
  "C08": ("exploration", DST + "join/leave/disconnect/heartbeat-expiry/partition add+remove with several connections; assignment invariants and group-wide exactly-once",
          "After every membership or partition-count event the assignment reported by get_consumer_group is checked (exclusive, complete, even); member polls are served from their share in rotation; next+auto-commit slices equal the model (no repeat, no hole).", "heartbeat expiry driven by the simulated clock and the real VerifyHeartbeatsExecutor", "4.C08"),
  "C09": ("exploration", DST + "sessions x users x swarm-generated permission records, updates interleaved with requests, unauthenticated raw requests, rule-level probes on the real Permissioner",
-         "No request is served without authentication or without a rule of the documented hierarchy granting it (permissive reading as upper bound), root is protected, permission changes are in force for the next request, rule evaluation never panics and is monotone (checked on the real Permissioner for record/superset pairs).", "the converse (every documented grant is honoured) is counted, not demanded: the statement is one-directional; record space sampled", "4.C09"),
+         "No request is served without authentication or without a rule of the documented hierarchy granting it (permissive reading as upper bound), root is protected, permission changes are in force for the next request (revocation arm: demotions followed at once by requests on the user's open connections), rule evaluation never panics and is monotone (checked on the real Permissioner for record/superset pairs).", "the converse (every documented grant is honoured) is counted, not demanded: the statement is one-directional; record space sampled", "4.C09"),
  "C10": ("exploration", DST + "credential life-cycle histories with clock jumps and restarts; byte scan of every file for secrets",
          "Login outcomes (password, personal access tokens: right/wrong/stale/expired/other user's/deleted) follow a validity model before and after restarts; after every audit all files are scanned for every password and raw token (plain, base64, UTF-16).", "JWT/HTTP not driven", "4.C10"),
  "C11": ("exploration", DST + "concurrent journalling under I/O-granular seeded schedules with injected append failures, then every byte flip / truncation / entry permutation of the harvested journal through the real loader",
@@ -40,7 +40,7 @@ CLAIMED = {
  "C17": ("exploration", DST + "balanced / partition-id / key sends interleaved with partition add/remove; where each unique message lands",
          "Explicit partition: exactly there or refused with nothing stored; same key and count: same existing partition; balanced sends rotate evenly over windows starting at a count change; one send lands in one partition.", "the hash function itself is not re-implemented", "4.C17"),
  "C18": ("exploration", DST + "id repetition patterns across batches, persists and restarts with dedup on/off",
-         "First occurrence kept, repeats dropped without consuming an offset (model + C01 oracles), distinct ids never dropped, nothing dropped with dedup off; id set rebuilt after restarts.", "runs stay inside the dedup TTL/capacity", "4.C18"),
+         "First occurrence kept, repeats dropped without consuming an offset (model + C01 oracles), distinct ids never dropped, nothing dropped with dedup off; id set rebuilt after restarts.", "runs stay inside the dedup TTL/capacity (capacity 0 = unbounded and 10^6 are both drawn); ids whose only copy was purged or deleted by retention are not sent again (statement silent)", "4.C18"),
  "C19": ("exploration", DST + "encryption on: byte scan of all files, lossless reads, restarts with same / other / no key",
          "With encryption on no payload marker and no journalled name appears in any file; polls return what was sent; a start with another key (or encryption off) is rejected or serves nothing as content, never panics; the right key then restores everything.", "", "4.C19"),
  "C20": ("exploration", DST + "real IggyClient/IggyProducer/IggyConsumer (background tasks scheduled by the simulator) against the simulated server",
